@@ -564,6 +564,9 @@ def threads_stage(prop, tier, seed, races=6, race_threads=8):
     hp_out = os.path.join(wd, "hist_trace.ndjson")
     vlib.run_harness(["threads", "--histories", hp, "--out", hp_out], timeout=3000)
     files.append(("histories", hp_out))
+    lp = os.path.join(wd, "long.ndjson")
+    vlib.run_harness(["threads", "--long", "400" if q else "3000", "--out", lp], timeout=3000)
+    files.append(("long", lp))
     for i in range(races if q else races * 5):
         rp = os.path.join(wd, f"race{i}.ndjson")
         vlib.run_harness(["threads", "--race", str(race_threads if i % 2 == 0 else 2 + (i % 15)), "--run", str(i), "--out", rp], timeout=3000)
@@ -593,7 +596,7 @@ def threads_stage(prop, tier, seed, races=6, race_threads=8):
             if not rr["ok"]:
                 raise vlib.ToolError("TLC failed on TraceThreads:\n" + rr["out"][-2000:])
             st.evaluations += nev
-            st.traces += 1 if name != "histories" else len(hist)
+            st.traces += len(hist) if name == "histories" else 1
     for h in hist:
         st.distinct.add(vlib.digest(h))
     st.samples.append({"history": hist[0], "races": len(files) - 1})
